@@ -1278,12 +1278,40 @@ def _loops_to_comprehensions(fn, rf, log, q):
                  and '[]' not in ds}
     all_comp_texts = {d for ds in rdefs.values() for d in ds
                       if d.startswith('[') and ' for ' in d}
-    if not all_comp_texts:
+    count_defs = {nm for nm, ds in rdefs.items()
+                  if any(d.startswith(('sum(1 for ', 'sum((1 for ')) for d in ds)}
+    if not all_comp_texts and not count_defs:
         return
     for blk in _blocks(fn):
         i = 0
         while i + 1 < len(blk):
             a, b = blk[i], blk[i + 1]
+            # n = 0; for v in S: if c: n += 1   ->   n = sum(1 for v in S if c)
+            if count_defs and isinstance(a, ast.Assign) and \
+                    len(a.targets) == 1 and isinstance(
+                        a.targets[0], ast.Name) and isinstance(
+                            a.value, ast.Constant) and a.value.value == 0 \
+                    and isinstance(b, ast.For) and not b.orelse and \
+                    len(b.body) == 1 and isinstance(b.body[0], ast.If) and \
+                    not b.body[0].orelse and len(b.body[0].body) == 1:
+                inc = b.body[0].body[0]
+                x = a.targets[0].id
+                if isinstance(inc, ast.AugAssign) and isinstance(
+                        inc.op, ast.Add) and _n(inc.target) == x and \
+                        isinstance(inc.value, ast.Constant) and \
+                        inc.value.value == 1:
+                    gen = ast.GeneratorExp(
+                        elt=ast.Constant(value=1),
+                        generators=[ast.comprehension(
+                            target=b.target, iter=b.iter,
+                            ifs=[b.body[0].test], is_async=0)])
+                    a.value = ast.copy_location(ast.Call(
+                        func=ast.Name(id='sum', ctx=ast.Load()), args=[gen],
+                        keywords=[]), a.value)
+                    del blk[i + 1]
+                    log.append('%s: counting loop for %s restored to '
+                               'sum(1 for ...)' % (q, x))
+                    continue
             if isinstance(a, ast.Assign) and len(a.targets) == 1 and \
                     isinstance(a.targets[0], ast.Name) and isinstance(
                         a.value, ast.List) and not a.value.elts and \
